@@ -46,7 +46,10 @@ Rooted(dir, p) == IF IsAbs(p) THEN Walk(<<>>, p, 2) ELSE Walk(dir, p, 1)
 \* optional leading "/", or leading "../" elements, then a valid path other than ".".
 RECURSIVE StripUps(_)
 StripUps(p) == IF Len(p) >= 2 /\ p[1] = ".." THEN StripUps(Tail(p)) ELSE p
-ValidTP(p) == LET q == IF IsAbs(p) THEN Tail(p) ELSE StripUps(p) IN q # <<".">> /\ ValidPath(q)
+\* (TLC re-evaluates a LET-bound value at every use: anything used more than once is passed as
+\* an operator argument instead, here and below)
+ValidRest(q) == q # <<".">> /\ ValidPath(q)
+ValidTP(p) == ValidRest(IF IsAbs(p) THEN Tail(p) ELSE StripUps(p))
 
 RefIdx(g, f) == SelectSeq([i \in 1..Len(g.refs) |-> i], LAMBDA i : g.refs[i].o = f)
 Target(g, i) == Rooted(Dir(g.refs[i].o), g.refs[i].p)
@@ -56,8 +59,9 @@ SameRole(k1, k2) == k1 = k2 \/ {k1, k2} = {"render", "renderd"}
 \* successors of the files S through the references of "clean" files; tg[i] = Target(g, i)
 SuccT(g, tg, clean, S) == {tg[i] : i \in {j \in 1..Len(g.refs) : g.refs[j].o \in S /\ g.refs[j].o \in clean}} \cap g.files
 RECURSIVE ClosureT(_, _, _, _, _)
+ClosureStep(g, tg, clean, S, S2, n) == IF S2 = S THEN S ELSE ClosureT(g, tg, clean, S2, n - 1)
 ClosureT(g, tg, clean, S, n) ==
-  IF n = 0 THEN S ELSE LET S2 == S \cup SuccT(g, tg, clean, S) IN IF S2 = S THEN S ELSE ClosureT(g, tg, clean, S2, n - 1)
+  IF n = 0 THEN S ELSE ClosureStep(g, tg, clean, S, S \cup SuccT(g, tg, clean, S), n)
 
 (* Facts(g): what the property's outcome clauses need to know about a graph (computed once).
    reach  files certainly loaded by a build that succeeds: from the entry file, through every
@@ -73,20 +77,21 @@ ClosureT(g, tg, clean, S, n) ==
           one file used in two roles, invalid paths, statement order): conservative
           over-approximation, only used to decide when the CLASS of the error is demanded to be
           "not found"                                                                          *)
-Facts(g) ==
-  LET n == Len(g.refs)
-      tg == [i \in 1..n |-> Target(g, i)]
-      clean == {f \in g.files : CleanFile(g, f)}
-      reach == IF g.entry \in g.files THEN ClosureT(g, tg, clean, {g.entry}, Cardinality(g.files)) ELSE {}
-      live == {i \in 1..n : g.refs[i].o \in reach /\ g.refs[i].o \in clean}
-      firstOfEntry == IF \E i \in 1..n : g.refs[i].o = g.entry THEN CHOOSE i \in 1..n : g.refs[i].o = g.entry /\ \A j \in 1..(i - 1) : g.refs[j].o # g.entry ELSE 0
-  IN [reach |-> reach,
-      cyc |-> \E f \in reach : f \in ClosureT(g, tg, clean, SuccT(g, tg, clean, {f}), Cardinality(g.files)),
-      esc |-> {i \in live : tg[i] = ESC /\ g.refs[i].k # "renderd"},
-      other |-> \/ \E f \in reach : f \notin clean
-                \/ \E i \in live : g.refs[i].k = "extends" /\ i # firstOfEntry
-                \/ \E i, j \in live : tg[i] = tg[j] /\ ~SameRole(g.refs[i].k, g.refs[j].k)
-                \/ \E i, j \in live : g.refs[i].o = g.refs[j].o /\ i < j /\ g.refs[i].k \in {"render", "renderd"} /\ g.refs[j].k \in {"extends", "import"}]
+FirstOfEntry(g) == IF \E i \in 1..Len(g.refs) : g.refs[i].o = g.entry
+                   THEN CHOOSE i \in 1..Len(g.refs) : g.refs[i].o = g.entry /\ \A j \in 1..(i - 1) : g.refs[j].o # g.entry ELSE 0
+Facts3(g, tg, clean, reach, live, first) ==
+  [reach |-> reach,
+   cyc |-> \E f \in reach : f \in ClosureT(g, tg, clean, SuccT(g, tg, clean, {f}), Cardinality(g.files)),
+   esc |-> {i \in live : tg[i] = ESC /\ g.refs[i].k # "renderd"},
+   other |-> \/ \E f \in reach : f \notin clean
+             \/ \E i \in live : g.refs[i].k = "extends" /\ i # first
+             \/ \E i, j \in live : tg[i] = tg[j] /\ ~SameRole(g.refs[i].k, g.refs[j].k)
+             \/ \E i, j \in live : g.refs[i].o = g.refs[j].o /\ i < j /\ g.refs[i].k \in {"render", "renderd"} /\ g.refs[j].k \in {"extends", "import"}]
+Facts2(g, tg, clean, reach) ==
+  Facts3(g, tg, clean, reach, {i \in 1..Len(g.refs) : g.refs[i].o \in reach /\ g.refs[i].o \in clean}, FirstOfEntry(g))
+Facts1(g, tg, clean) ==
+  Facts2(g, tg, clean, IF g.entry \in g.files THEN ClosureT(g, tg, clean, {g.entry}, Cardinality(g.files)) ELSE {})
+Facts(g) == Facts1(g, [i \in 1..Len(g.refs) |-> Target(g, i)], {f \in g.files : CleanFile(g, f)})
 Reach(g) == Facts(g).reach
 HasCycle(g) == Facts(g).cyc
 EscReached(g) == Facts(g).esc # {}
@@ -118,26 +123,30 @@ OpenClause(g, opens) ==
   ELSE IF ReadTwice(opens) # {} THEN "read-once"
   ELSE ""
 \* ... and about the outcome
-OutcomeClause(g, oc) ==
-  LET F == Facts(g) IN
+OutcomeOf(F, oc) ==
   IF F.cyc /\ ~IsError(oc) THEN "cycle-is-error"
   ELSE IF F.esc # {} /\ ~IsError(oc) THEN "escape-is-error"
   \* the error CLASS is demanded only when leaving the root / a missing file is the one thing
   \* wrong with the graph (otherwise which error comes first is the implementation's business)
   ELSE IF F.esc # {} /\ ~F.cyc /\ ~F.other /\ oc # "notexist" THEN "escape-not-found-class"
   ELSE ""
+OutcomeClause(g, oc) == OutcomeOf(Facts(g), oc)
+OpenThenOutcome(c, g, oc) == IF c # "" THEN c ELSE OutcomeClause(g, oc)
 Clause(g, opens, oc, term) ==
   IF ~term THEN "terminates"                                  \* ... rather than recursing / hangs
-  ELSE LET c == OpenClause(g, opens) IN IF c # "" THEN c ELSE OutcomeClause(g, oc)
+  ELSE OpenThenOutcome(OpenClause(g, opens), g, oc)
 \* detail for the signature: what identifies the root cause
-Detail(g, opens, oc, term) ==
-  LET c == Clause(g, opens, oc, term) IN
-  IF c = "open-valid-path" THEN (LET i == CHOOSE i \in 1..Len(opens) : ~ValidPath(opens[i].n) /\ \A j \in 1..(i - 1) : ValidPath(opens[j].n) IN opens[i].n)
-  ELSE IF c = "open-provenance" THEN (LET i == CHOOSE i \in 1..Len(opens) : ~Provenance(g, opens, i) /\ \A j \in 1..(i - 1) : Provenance(g, opens, j) IN opens[i].n)
-  ELSE IF c = "read-once" THEN (LET i == CHOOSE i \in ReadTwice(opens) : \A j \in ReadTwice(opens) : i <= j IN opens[i].n)
-  ELSE IF c \in {"escape-is-error", "escape-not-found-class"} THEN (LET E == Facts(g).esc i == CHOOSE i \in E : \A j \in E : i <= j IN <<g.refs[i].k>> \o g.refs[i].p)
+FirstBadOpen(opens, Bad(_)) == opens[CHOOSE i \in 1..Len(opens) : Bad(i) /\ \A j \in 1..(i - 1) : ~Bad(j)].n
+MinOf(E) == CHOOSE i \in E : \A j \in E : i <= j
+RefSig(g, i) == <<g.refs[i].k>> \o g.refs[i].p
+DetailOf(c, g, opens, oc) ==
+  IF c = "open-valid-path" THEN FirstBadOpen(opens, LAMBDA i : ~ValidPath(opens[i].n))
+  ELSE IF c = "open-provenance" THEN FirstBadOpen(opens, LAMBDA i : ~Provenance(g, opens, i))
+  ELSE IF c = "read-once" THEN opens[MinOf(ReadTwice(opens))].n
+  ELSE IF c \in {"escape-is-error", "escape-not-found-class"} THEN RefSig(g, MinOf(Facts(g).esc))
   ELSE IF c = "cycle-is-error" THEN <<oc>>
   ELSE <<>>
+Detail(g, opens, oc, term) == DetailOf(Clause(g, opens, oc, term), g, opens, oc)
 
 (* ---- reference expansion: depth first, an active path (cycle detection), a parsed cache ----
    It yields the intended outcome class and the intended sequence of opens for graphs without
@@ -145,24 +154,23 @@ Detail(g, opens, oc, term) ==
    drift information only.                                                                     *)
 Missing(s, k) == IF k = "renderd" THEN s ELSE IF k = "import" THEN [s EXCEPT !.pend = TRUE] ELSE [s EXCEPT !.out = "notexist"]
 RECURSIVE RefFile(_, _, _, _), RefRefs(_, _, _, _, _)
+RefParsed(s2, f) == IF s2.out = "run" THEN [s2 EXCEPT !.parsed = @ \cup {f}] ELSE s2
 RefFile(g, f, active, s) ==                \* f has just been opened successfully
   IF ~CleanFile(g, f) THEN [s EXCEPT !.out = "other"]
-  ELSE LET s2 == RefRefs(g, f, 1, active \cup {f}, s) IN
-       IF s2.out = "run" THEN [s2 EXCEPT !.parsed = @ \cup {f}] ELSE s2
+  ELSE RefParsed(RefRefs(g, f, 1, active \cup {f}, s), f)
+RefOne(g, active, s, k, t) ==              \* one reference of kind k that resolves to t
+  IF t = ESC THEN Missing(s, k)
+  ELSE IF t \in active THEN [s EXCEPT !.out = "cycle"]
+  ELSE IF t \in s.parsed THEN s
+  ELSE IF t \notin g.files THEN Missing([s EXCEPT !.opens = Append(@, [n |-> t, ok |-> FALSE])], k)
+  ELSE RefFile(g, t, active, [s EXCEPT !.opens = Append(@, [n |-> t, ok |-> TRUE])])
+RefNext(g, f, i, active, s, r) == RefRefs(g, f, i + 1, active, RefOne(g, active, s, r.k, Rooted(Dir(f), r.p)))
 RefRefs(g, f, i, active, s) ==
   IF s.out # "run" \/ i > Len(RefIdx(g, f)) THEN s
-  ELSE LET r == g.refs[RefIdx(g, f)[i]]
-           t == Rooted(Dir(f), r.p)
-           s3 == IF t = ESC THEN Missing(s, r.k)
-                 ELSE IF t \in active THEN [s EXCEPT !.out = "cycle"]
-                 ELSE IF t \in s.parsed THEN s
-                 ELSE IF t \notin g.files THEN Missing([s EXCEPT !.opens = Append(@, [n |-> t, ok |-> FALSE])], r.k)
-                 ELSE RefFile(g, t, active, [s EXCEPT !.opens = Append(@, [n |-> t, ok |-> TRUE])])
-       IN RefRefs(g, f, i + 1, active, s3)
-Ref(g) ==
-  LET s0 == [parsed |-> {}, pend |-> FALSE, out |-> "run", opens |-> <<[n |-> g.entry, ok |-> g.entry \in g.files]>>]
-      s1 == IF g.entry \in g.files THEN RefFile(g, g.entry, {}, s0) ELSE [s0 EXCEPT !.out = "notexist"]
-  IN [out |-> IF s1.out # "run" THEN s1.out ELSE IF s1.pend THEN "notexist" ELSE "ok", opens |-> s1.opens]
+  ELSE RefNext(g, f, i, active, s, g.refs[RefIdx(g, f)[i]])
+RefResult(s1) == [out |-> IF s1.out # "run" THEN s1.out ELSE IF s1.pend THEN "notexist" ELSE "ok", opens |-> s1.opens]
+RefStart(g, s0) == RefResult(IF g.entry \in g.files THEN RefFile(g, g.entry, {}, s0) ELSE [s0 EXCEPT !.out = "notexist"])
+Ref(g) == RefStart(g, [parsed |-> {}, pend |-> FALSE, out |-> "run", opens |-> <<[n |-> g.entry, ok |-> g.entry \in g.files]>>])
 
 (* ============================= 2. IMPLEMENTATION-SHAPED MODEL ============================= *)
 (* State st (one record, so that the same branches serve as TLC actions and as a function):
@@ -182,16 +190,16 @@ InitSt(g) == [g |-> g, stack |-> <<>>, trees |-> {}, canExtend |-> TRUE, pend |-
 
 \* path.go: ValidTemplatePath, on elements
 ImplValidTemplatePath(p) ==
-  LET q == IF Len(p) >= 2 /\ p[1] = "" THEN Tail(p)          \* path[0] == '/': path = path[1:]
-           ELSE StripUps(p)                                   \* for HasPrefix(path, "../"): path = path[3:]
-  IN q # <<".">> /\ ValidPath(q)
+  ValidRest(IF Len(p) >= 2 /\ p[1] = "" THEN Tail(p)          \* path[0] == '/': path = path[1:]
+            ELSE StripUps(p))                                  \* for HasPrefix(path, "../"): path = path[3:]
+                                                               \* path != "." && fs.ValidPath(path)
 \* ParseTemplateSource succeeds on the source the harness writes for file f: every path valid,
 \* extends only as the very first statement, imports before the macro that holds the renders
-ParseOK(g, f) ==
-  LET L == RefIdx(g, f) IN
+ParseOKL(g, L) ==
   /\ \A j \in 1..Len(L) : ImplValidTemplatePath(g.refs[L[j]].p)
   /\ \A j \in 2..Len(L) : g.refs[L[j]].k # "extends"
   /\ \A j, m \in 1..Len(L) : (j < m /\ g.refs[L[j]].k \in {"render", "renderd"}) => g.refs[L[m]].k \in {"render", "renderd"}
+ParseOK(g, f) == ParseOKL(g, RefIdx(g, f))
 \* path.Clean of a relative path given by its elements
 RECURSIVE CleanEl(_, _, _)
 CleanEl(out, p, i) ==
@@ -202,10 +210,10 @@ CleanEl(out, p, i) ==
   ELSE CleanEl(Append(out, p[i]), p, i + 1)
 \* rooted(parent, name).  strings.HasPrefix(r, "..") is modelled as "first element is .." (no
 \* generated element other than ".." starts with two dots).
+NotAbove(r) == IF r[1] = ".." THEN ESC ELSE r                     \* strings.HasPrefix(r, "..")
 ImplRooted(parent, p) ==
   IF IsAbs(p) THEN Tail(p)                                        \* name[1:]
-  ELSE LET r == CleanEl(<<>>, Dir(parent) \o p, 1) IN             \* path.Join(path.Dir(parent), name)
-       IF r[1] = ".." THEN ESC ELSE r
+  ELSE NotAbove(CleanEl(<<>>, Dir(parent) \o p, 1))              \* path.Join(path.Dir(parent), name)
 
 Top(st) == st.stack[Len(st.stack)]
 Paths(st) == {st.stack[j].f : j \in 1..Len(st.stack)}
@@ -226,38 +234,42 @@ Conflict(tk, nk) ==   \* the switch on parsed.parent.node in parseNodeFile
 
 (* Br(st): which branch of the code is taken next - the if-chain of ParseTemplate /
    expand / parseNodeFile, in the order of the source.  "Done" when there is an outcome.        *)
+BrRead(st, r, name) ==                                            \* readFileAndFormat(pp.fsys, name)
+  IF name \notin st.g.files THEN (IF Tolerated(r.k) THEN "ReadMissingTolerated" ELSE "ReadMissingFail")
+  ELSE IF ~ParseOK(st.g, name) THEN "ReadSyntax" ELSE "ReadPush"
+BrCache(st, r, name, cached) ==                                   \* pp.trees[name] exists?
+  IF cached # {} THEN (IF \E t \in cached : Conflict(t.k, r.k) THEN "CacheConflict" ELSE "CacheReuse")
+  ELSE BrRead(st, r, name)
+BrName(st, r, name) ==
+  IF name = ESC THEN (IF Tolerated(r.k) THEN "EscapeTolerated" ELSE "EscapeFail")    \* rooted() returned os.ErrNotExist
+  ELSE IF name \in Paths(st) THEN "Cycle"                                             \* slices.Contains(pp.paths, name)
+  ELSE BrCache(st, r, name, {t \in st.trees : t.n = name})
+BrNode(st, top, r) ==
+  IF r.k = "extends" /\ ~st.canExtend THEN "ExtendsForbidden"     \* imported and rendered files can not have extends
+  ELSE BrName(st, r, ImplRooted(top.f, r.p))
+BrExpand(st, top, L) ==
+  IF top.i > Len(L) THEN                                          \* expand: the loop over the unexpanded nodes is over
+    (IF Len(st.stack) = 1 THEN "ReturnTop"                        \*   back in ParseTemplate; then the type checker
+     ELSE "ReturnChild")                                          \*   back in parseNodeFile: pp.trees[name] = parsed
+  ELSE BrNode(st, top, st.g.refs[L[top.i]])
 Br(st) ==
-  IF st.out = "init" THEN                                          \* ParseTemplate: readFileAndFormat(entry), parseSource
+  IF st.out = "init" THEN                                         \* ParseTemplate: readFileAndFormat(entry), parseSource
     (IF st.g.entry \notin st.g.files THEN "StartMissing"
      ELSE IF ~ParseOK(st.g, st.g.entry) THEN "StartSyntax" ELSE "Start")
   ELSE IF st.out # "run" THEN "Done"
-  ELSE LET top == Top(st)  L == RefIdx(st.g, top.f) IN
-    IF top.i > Len(L) THEN                                         \* expand: the loop over the unexpanded nodes is over
-      (IF Len(st.stack) = 1 THEN "ReturnTop"                       \*   back in ParseTemplate; then the type checker
-       ELSE "ReturnChild")                                         \*   back in parseNodeFile: pp.trees[name] = parsed
-    ELSE LET r == st.g.refs[L[top.i]] IN
-      IF r.k = "extends" /\ ~st.canExtend THEN "ExtendsForbidden"  \* imported and rendered files can not have extends
-      ELSE LET name == ImplRooted(top.f, r.p) IN
-        IF name = ESC THEN                                         \* rooted() returned os.ErrNotExist
-          (IF Tolerated(r.k) THEN "EscapeTolerated" ELSE "EscapeFail")
-        ELSE IF name \in Paths(st) THEN "Cycle"                    \* slices.Contains(pp.paths, name)
-        ELSE LET cached == {t \in st.trees : t.n = name} IN
-          IF cached # {} THEN                                      \* pp.trees[name] exists
-            (IF \E t \in cached : Conflict(t.k, r.k) THEN "CacheConflict" ELSE "CacheReuse")
-          ELSE IF name \notin st.g.files THEN                      \* readFileAndFormat fails with ErrNotExist
-            (IF Tolerated(r.k) THEN "ReadMissingTolerated" ELSE "ReadMissingFail")
-          ELSE IF ~ParseOK(st.g, name) THEN "ReadSyntax" ELSE "ReadPush"
+  ELSE BrExpand(st, Top(st), RefIdx(st.g, Top(st).f))
 Labels == {"StartMissing", "StartSyntax", "Start", "ReturnTop", "ReturnChild", "ExtendsForbidden", "EscapeFail",
            "EscapeTolerated", "Cycle", "CacheConflict", "CacheReuse", "ReadMissingFail", "ReadMissingTolerated",
            "ReadSyntax", "ReadPush"}
+Pushed(s1, name) == [s1 EXCEPT !.stack = Append(@, [f |-> name, i |-> 1])]
 \* the effect of each branch
 Eff(b, st) ==
   CASE b = "StartMissing" -> Fail(Logged(st, st.g.entry, FALSE), "notexist")
     [] b = "StartSyntax" -> Fail(Logged(st, st.g.entry, TRUE), "other")
     [] b = "Start" -> [Logged(st, st.g.entry, TRUE) EXCEPT !.out = "run", !.stack = <<[f |-> st.g.entry, i |-> 1]>>]
     [] b = "ReturnTop" -> [st EXCEPT !.stack = <<>>, !.out = IF st.pend THEN "notexist" ELSE "ok"]
-    [] b = "ReturnChild" -> LET caller == st.stack[Len(st.stack) - 1] IN
-         Advance([st EXCEPT !.stack = ButLast(st.stack), !.trees = @ \cup {[n |-> Top(st).f, k |-> CurOf(st, caller).k]}])
+    [] b = "ReturnChild" ->
+         Advance([st EXCEPT !.stack = ButLast(st.stack), !.trees = @ \cup {[n |-> Top(st).f, k |-> CurOf(st, st.stack[Len(st.stack) - 1]).k]}])
     [] b = "ExtendsForbidden" -> Fail(st, "other")
     [] b = "EscapeFail" -> Fail(NoExt(st), "notexist")
     [] b = "EscapeTolerated" -> Swallow(NoExt(st))
@@ -267,7 +279,7 @@ Eff(b, st) ==
     [] b = "ReadMissingFail" -> Fail(Logged(NoExt(st), Name(st), FALSE), "notexist")
     [] b = "ReadMissingTolerated" -> Swallow(Logged(NoExt(st), Name(st), FALSE))
     [] b = "ReadSyntax" -> Fail(Logged(NoExt(st), Name(st), TRUE), "other")
-    [] b = "ReadPush" -> LET s1 == Logged(NoExt(st), Name(st), TRUE) IN [s1 EXCEPT !.stack = Append(@, [f |-> Name(st), i |-> 1])]
+    [] b = "ReadPush" -> Pushed(Logged(NoExt(st), Name(st), TRUE), Name(st))
 StepFn(st) == Tick(Eff(Br(st), st))
 Final(st) == st.out \notin {"init", "run"}
 RECURSIVE RunFn(_)
